@@ -408,6 +408,9 @@ Ltac guard_facts :=
   | H : exists _, _ |- _ => destruct H
   | H : in_state _ _ = true |- _ => apply in_state_true in H
   | H : in_state _ _ = false |- _ => apply in_state_false in H
+  | H : (fun _ => _) _ = _ |- _ => cbv beta in H
+  | H : frames_ready _ = true |- _ => unfold frames_ready in H; apply andb_prop in H
+  | H : msg_start _ = true |- _ => unfold msg_start in H; apply andb_prop in H
   | H : connecting _ = true |- _ => unfold connecting in H; apply andb_prop in H
   | H : proxy_connecting _ = true |- _ => unfold proxy_connecting in H; apply andb_prop in H
   | H : frames_flow _ = true |- _ => unfold frames_flow in H; apply andb_prop in H
@@ -457,7 +460,7 @@ Qed.
 Definition is_cbclose (o : out) : bool := match snd o with CbClose _ _ _ _ => true | _ => false end.
 Definition cbcount (l : list out) : nat := length (filter is_cbclose l).
 Definition is_frame (o : out) : bool :=
-  match snd o with WData | WPing _ | WPong | WClose _ _ _ => true | _ => false end.
+  match snd o with WData | WHdr | WPayload _ | WPing _ | WPong | WClose _ _ _ => true | _ => false end.
 Definition is_closef (o : out) : bool := match snd o with WClose _ _ _ => true | _ => false end.
 Definition close_in (l : list out) : bool := existsb is_closef l.
 (* no frame of any kind follows a close frame (in particular: at most one close frame) *)
